@@ -70,6 +70,12 @@ pub const KEEP_ALIVE_INTERVAL: u64 = 16;
 pub struct Connection<S, Stat, Disc, Filt, Stra, Auth, Loca> {
     stream: CipherStream<S, Aes128Cfb8Enc, Aes128Cfb8Dec>,
     buffer: Vec<u8>,
+    // the bytes of the packet that is currently being received (length prefix included); kept here and not in
+    // the receiving future, because that future is raced in `tokio::select!` and may be dropped at any await
+    read_buffer: Vec<u8>,
+    // the bytes of clientbound packets that were not yet accepted by the stream, and how many of them were
+    write_buffer: Vec<u8>,
+    write_position: usize,
 
     // adapters
     status_adapter: Arc<Stat>,
@@ -119,6 +125,9 @@ where
         Self {
             stream: CipherStream::from_stream(stream),
             buffer: Vec::with_capacity(INITIAL_BUFFER_SIZE),
+            read_buffer: Vec::with_capacity(INITIAL_BUFFER_SIZE),
+            write_buffer: Vec::with_capacity(INITIAL_BUFFER_SIZE),
+            write_position: 0,
             // adapters
             status_adapter,
             discovery_adapter,
@@ -158,13 +167,67 @@ where
         self
     }
 
+    /// Reads from the stream until `frame` holds one complete packet including its length prefix and returns the
+    /// number of bytes of that prefix. This is cancel safe: every byte that was read is kept in `frame`, a later
+    /// call continues where a dropped one stopped. It never reads beyond the end of the packet, so that the switch
+    /// to an encrypted stream between two packets stays exact.
+    async fn fill_frame(
+        stream: &mut CipherStream<S, Aes128Cfb8Enc, Aes128Cfb8Dec>,
+        frame: &mut Vec<u8>,
+        max_packet_length: VarInt,
+    ) -> Result<usize, Error> {
+        loop {
+            // decode the length prefix from the bytes that are already there (at most 5 bytes)
+            let mut length: VarInt = 0;
+            let mut prefix = None;
+            for (i, byte) in frame.iter().take(5).enumerate() {
+                length |= (VarInt::from(byte & 0b0111_1111)) << (7 * i);
+                if byte & 0b1000_0000 == 0 || i == 4 {
+                    prefix = Some(i + 1);
+                    break;
+                }
+            }
+
+            // get the number of bytes that are still missing
+            let missing = match prefix {
+                None => 1,
+                Some(prefix) => {
+                    // check the length of the packet before any following content is buffered
+                    if length <= 0 || length > max_packet_length {
+                        debug!(
+                            length,
+                            "packet length should be between 0 and {}", max_packet_length
+                        );
+                        return Err(passage_packets::Error::IllegalPacketLength.into());
+                    }
+                    let expected = prefix + length as usize;
+                    if frame.len() >= expected {
+                        return Ok(prefix);
+                    }
+                    expected - frame.len()
+                }
+            };
+
+            // read at most the missing bytes (a single `read` is cancel safe)
+            let mut chunk = vec![0u8; missing.min(4096)];
+            let read = stream.read(&mut chunk).await?;
+            if read == 0 {
+                return Err(std::io::Error::from(std::io::ErrorKind::UnexpectedEof).into());
+            }
+            frame.extend_from_slice(&chunk[..read]);
+        }
+    }
+
     #[instrument(skip_all, fields(packet_length = field::Empty, packet_id = field::Empty))]
     async fn receive_packet(
         &mut self,
         keep_alive: bool,
     ) -> Result<(VarInt, Cursor<Vec<u8>>), Error> {
+        // finish sending a packet that an earlier, cancelled call may have left half-written
+        self.flush_pending().await?;
+
         // wait for the next packet, send keep-alive packets as necessary
-        let length = loop {
+        let prefix = loop {
             tokio::select! {
                 // use biased selection such that branches are checked in order
                 biased;
@@ -187,46 +250,31 @@ where
                     let packet = conf_out::KeepAlivePacket { id };
                     self.send_packet(packet).await?;
                 },
-                // await the next packet in, reading the packet size (expect fast execution)
-                maybe_length = self.stream.read_varint().instrument(tracing::info_span!("read_packet_length", otel.kind = "server")) => {
-                    break maybe_length?;
+                // await the next packet in (length prefix, packet id and content), keeping all progress in the connection
+                maybe_prefix = Self::fill_frame(&mut self.stream, &mut self.read_buffer, self.max_packet_length)
+                    .instrument(tracing::info_span!("read_packet", otel.kind = "server")) => {
+                    break maybe_prefix?;
                 },
             }
         };
 
-        // check the length of the packet for any following content
-        if length <= 0 || length > self.max_packet_length {
-            debug!(
-                length,
-                "packet length should be between 0 and {}", self.max_packet_length
-            );
-            return Err(passage_packets::Error::IllegalPacketLength.into());
-        }
+        // take the completed packet out of the connection
+        let frame = std::mem::replace(&mut self.read_buffer, Vec::with_capacity(INITIAL_BUFFER_SIZE));
+        let mut content = Cursor::new(frame);
+        content.set_position(prefix as u64);
 
         // track metrics
-        let packet_size = u64::try_from(length).expect("length is always positive");
+        let packet_size = (content.get_ref().len() - prefix) as u64;
         metrics::packet_size::record_serverbound(packet_size);
         tracing::Span::current().record("packet_length", packet_size);
 
         // extract the encoded packet id
-        let id = self
-            .stream
-            .read_varint()
-            .instrument(tracing::info_span!("read_packet_id", otel.kind = "server"))
-            .await?;
+        let id = content.read_varint().await?;
         tracing::Span::current().record("packet_id", id);
 
-        // split a separate reader from the stream and read packet bytes (advancing stream)
-        let mut buffer = vec![];
-        (&mut self.stream)
-            .take(length as u64 - 1)
-            .read_to_end(&mut buffer)
-            .instrument(tracing::info_span!(
-                "read_packet_bytes",
-                otel.kind = "server"
-            ))
-            .await?;
-        let buf = Cursor::new(buffer);
+        // the remaining bytes are the packet content
+        let position = content.position() as usize;
+        let buf = Cursor::new(content.into_inner().split_off(position));
 
         Ok((id, buf))
     }
@@ -248,16 +296,33 @@ where
         final_buffer.write_varint(packet_len as VarInt).await?;
         final_buffer.extend_from_slice(&self.buffer);
 
-        // send the final buffer into the stream
-        self.stream
-            .write_all(&final_buffer)
-            .instrument(tracing::info_span!("write_packet", otel.kind = "server"))
-            .await?;
-
         // track metrics
         let packet_size = u64::try_from(final_buffer.len()).expect("usize always fits into u64");
         metrics::packet_size::record_clientbound(packet_size);
 
+        // queue the final buffer behind anything that is still unsent and send it into the stream
+        self.write_buffer.extend_from_slice(&final_buffer);
+        self.flush_pending()
+            .instrument(tracing::info_span!("write_packet", otel.kind = "server"))
+            .await
+    }
+
+    /// Writes the queued clientbound bytes into the stream. This is cancel safe: the progress is kept in the
+    /// connection, so a packet is never abandoned half-written when the calling future is dropped, and packets
+    /// reach the client complete and in order.
+    async fn flush_pending(&mut self) -> Result<(), Error> {
+        while self.write_position < self.write_buffer.len() {
+            let written = self
+                .stream
+                .write(&self.write_buffer[self.write_position..])
+                .await?;
+            if written == 0 {
+                return Err(std::io::Error::from(std::io::ErrorKind::WriteZero).into());
+            }
+            self.write_position += written;
+        }
+        self.write_buffer.clear();
+        self.write_position = 0;
         Ok(())
     }
 
@@ -269,7 +334,6 @@ where
         }
     }
 
-    // TODO check whether this may result in partially written packets?
     /** Endlessly receives and sends keep-alive packets. It should be used with a `tokio::select!` */
     async fn keep_alive<T>(&mut self) -> Result<T, Error> {
         loop {
